@@ -53,6 +53,14 @@ def gen_script(rng, max_ops, profile):
                 deps.setdefault(a, set()).update(ds)
     st = State()
     lines.append('update')
+    njobs = 0
+    for js in profile.get('jobs', []):
+        reqs = [(p, fl) for p, fl in js['reqs'] if p in pals]
+        chk = [p for p in js.get('check', []) if p in pals]
+        if not reqs:
+            continue
+        lines.append('mkjob 1 %s%s' % (' '.join('%d:%d' % r for r in reqs), (' c ' + ' '.join(map(str, chk))) if chk else ''))
+        njobs += 1
     depth = 0
     armed = False
     nops = rng.range(max_ops // 3, max_ops)
@@ -247,6 +255,13 @@ def gen_script(rng, max_ops, profile):
             sp = rng.pick(sorted(st.shared[h]))
             lines.append('removeshared #%d %d' % (h, sp))
             st.shared[h].discard(sp)
+        elif choice == 'runjob':
+            if depth == 0 and njobs:
+                mode = rng.below(2)
+                t = ''
+                if mode == 1 and rng.chance(1, 2):
+                    t = ' %d' % rng.range(1, max(1, len(st.comps)) + 1)
+                lines.append('runjob %d %d%s' % (rng.below(njobs), mode, t))
         elif choice == 'update':
             if depth == 0:
                 lines.append(rng.pick(['update', 'update', 'emupdate']))
@@ -349,6 +364,19 @@ def profile(name):
         p['pals'] = [0, 1, 2, 3]
         p['threads'] = [0, 1]
         p['weights'].update({'assignshared': 16, 'removeshared': 7, 'create': 20, 'lock': 4, 'unlock': 6})
+    elif name in ('C04', 'C07', 'C11'):
+        p['pals'] = [0, 1, 2, 4] if name != 'C04' else [0, 1, 2, 3, 4, 8]
+        p['threads'] = [1, 2, 3, 7]
+        p['chunkcap'] = [2, 3, 4, 5] if name == 'C04' else [0, 4]
+        p['verchunk'] = [1, 2, 3, 4, 5, 6]
+        p['createarch'] = False
+        p['jobs'] = [{'reqs': [(0, 1)], 'check': [0]}, {'reqs': [(0, 0)], 'check': []}, {'reqs': [(0, 1), (1, 3)], 'check': [0]},
+                     {'reqs': [(0, 1), (1, 1)], 'check': [0, 1]}, {'reqs': [(1, 0), (2, 3)], 'check': [1]}, {'reqs': [(0, 1)], 'check': []}]
+        if name == 'C04':
+            p['jobs'] = [{'reqs': [(0, 1)], 'check': []}, {'reqs': [(0, 0), (1, 3)], 'check': []}, {'reqs': [(0, 1), (2, 1)], 'check': []},
+                         {'reqs': [(0, 1)], 'check': [0]}, {'reqs': [(1, 0), (0, 2)], 'check': [1]}]
+        p['weights'] = {'create': 26, 'destroynow': 9, 'destroy': 3, 'assign': 8, 'remove': 6, 'set': 12, 'get': 6,
+                        'clone': 2, 'update': 6, 'cleararch': 1, 'lock': 0, 'unlock': 0, 'runjob': 22}
     elif name == 'C13':
         p['deps'] = 100
         p['pals'] = [0, 1, 2, 3, 5, 8, 9]
